@@ -186,9 +186,55 @@ def config_for(case, stats, q, m, d):
 # the check
 # ---------------------------------------------------------------------------
 
-def check_pipeline(ctx, case, sig, do_votes=True, do_c03=False):
+def check_pipeline(ctx, case, sig, do_votes=True, do_c03=False,
+                   _shrinking=False):
+    n0 = len(ctx.violations)
+    ok = _check_pipeline(ctx, case, sig, do_votes, do_c03, _shrinking)
+    if not _shrinking and len(ctx.violations) > n0:
+        _shrink(ctx, case, sig, do_votes, do_c03, n0)
+    return ok
+
+
+def _shrink(ctx, case, sig, do_votes, do_c03, n0):
+    """try to reduce a failing pipeline case to the single offending cell
+    (the drawn subsets change with the chunking, so this may not reproduce;
+    then the full case is kept)"""
+    v = ctx.violations[n0]
+    d = v['detail']
+    cid = d.get('cell')
+    if cid is None and isinstance(d.get('record'), dict):
+        cid = d['record'].get('cell_id')
+    if not v['found_input'] or cid not in case.get('cell_ids', []) or \
+            len(case['cell_ids']) < 2:
+        return
+    i = case['cell_ids'].index(cid)
+    small = copy.deepcopy({k: case[k] for k in case})
+    small['cell_ids'] = [case['cell_ids'][i]]
+    small['X'] = [case['X'][i]]
+    small['opts'] = dict(case['opts'], n_processors=1, chunk_size=1)
+    small['label'] = list(case.get('label', [])) + ['shrunk']
+    n1 = len(ctx.violations)
+    saved = (ctx.evaluations, ctx.traces, dict(ctx.dist),
+             set(ctx.nontrivial_keys), list(ctx.samples))
+    try:
+        check_pipeline(ctx, small, sig, do_votes, do_c03, _shrinking=True)
+    except Exception:   # noqa  (never let the shrinker change the verdict)
+        pass
+    new = ctx.violations[n1:]
+    del ctx.violations[n1:]
+    (ctx.evaluations, ctx.traces, ctx.dist, ctx.nontrivial_keys,
+     ctx.samples) = saved
+    for w in new:
+        if w['signature'] == v['signature'] and w['found_input']:
+            w['detail']['shrunk_from_cells'] = len(case['cell_ids'])
+            ctx.violations[n0] = w
+            break
+
+
+def _check_pipeline(ctx, case, sig, do_votes, do_c03, _shrinking):
     for lb in case.get('label', []):
-        ctx.count('pipeline:' + lb)
+        if not _shrinking:
+            ctx.count('pipeline:' + lb)
     with pipeline.workdir() as d:
         stats, q, m = write_case(case, d)
         cfg = config_for(case, stats, q, m, d)
